@@ -129,6 +129,14 @@ CHECKS = {
         note='trusted: the term meet in vf/ref/typemeet.py as the reading of the lattice; clash observed as BadType anywhere inside either side'),
 }
 
+CHECKS['C20'] = dict(
+    category='exploration', design_ref='DESIGN.md 4/C20',
+    technique='runtime monitor: exhaustive small-domain evaluation of built-ins through compiled programs on SQLite vs Python reference definitions; aggregate programs compiled once and executed over every multiset of rows in all insertion orders (row-arrival schedule)',
+    text=('Every scalar built-in is evaluated on exhaustive small domains (50 calls per compiled program) and compared with a reference definition; '
+          'predicate-level and expression-level aggregates are compiled once and run on a data table filled with every multiset of up to 4 (5) rows '
+          'in every insertion order: each order must match the definition (ties: any admissible answer) and all orders must agree.'),
+    note='trusted: reference definitions in vf/ref/builtins.py and aggregates.py; SQLite integer division / C remainder; recorded C02 deviations modelled')
+
 NOT_YET = 'check not built yet in this session (planned in DESIGN.md section 4); not claimed until it runs clean on the unchanged tree'
 
 
